@@ -23,7 +23,7 @@ ASSUMPTIONS = ["mutators are only issued in mode r+ here (read-only enforcement 
                "asraggedarray is not called with an empty iterable (no dtype/atom could be inferred)",
                "bool / NumPy-integer truncate indices are not generated"]
 EXHAUSTIVE = None
-MUST_HIT = (['ops-inside-open-context', 'trunc-removes-only-zero-length', 'trunc0-then-append', 'reopen-between-ops', 'zero-length-subarray', 'rejected-call',
+MUST_HIT = (['append-fills-index-type-exactly', 'env:c-locale', 'ops-inside-open-context', 'trunc-removes-only-zero-length', 'trunc0-then-append', 'reopen-between-ops', 'zero-length-subarray', 'rejected-call',
              'how:create', 'how:as', 'iter_arrays:ok', 'iter_arrays:raises', 'iter_arrays:step!=1', 'nonnative',
              'atomrank:0', 'atomrank:1', 'atomrank:2'] + [f'indextype:{t}' for t in rhist.INDEXTYPES])
 
@@ -53,9 +53,31 @@ def nontrivial(out, run, spec):
 
 
 def execute(ctx, spec):
+    if spec.get('env'):          # a case recorded from a child interpreter under another environment (replay path)
+        from vlib import envrun
+        return envrun.execute_in_env(ctx, 'checks.c04', spec)
     out, run = rhist.run_ragged_history(ctx, spec, ('model',))
     out.nontrivial = nontrivial(out, run, spec)
     return out
+
+
+def fixed_specs():
+    """Index types filled to exactly their largest value, shrunk and filled again."""
+    for it in ('int8', 'uint8', 'int16', 'uint16'):
+        for atom in ([], [2]):
+            start = {'how': 'as', 'dt': {'t': 'int16', 'bo': '<'}, 'atom': atom, 'indextype': it, 'meta': None, 'mode': 'r+', 'dtarg': True, 'gen': False,
+                     'items': [{'n': 3, 'seed': 1, 'form': 'nd'}, {'n': 0, 'seed': 2, 'form': 'nd'}]}
+            yield {'start': start, 'ops': [{'o': 'fillmax', 'seed': 3}, {'o': 'read', 'triples': [[-1, None, 1]]}, {'o': 'trunc', 'i': -1, 'by': 'obj'},
+                                            {'o': 'append', 'item': {'n': 2, 'seed': 4, 'form': 'nd'}}, {'o': 'fillmax', 'seed': 5}, {'o': 'reopen', 'm': 'r+'},
+                                            {'o': 'append', 'item': {'n': 0, 'seed': 6, 'form': 'nd'}}]}
+
+
+def task_fixed(ctx, col):
+    enum_search(ctx, col, fixed_specs(), lambda s: execute(ctx, s))
+    # a sample of histories in a child interpreter whose default text encoding is ASCII (README and JSON files are written there too)
+    from vlib import envrun
+    from vlib.runner import hyp_collect
+    envrun.run_specs(ctx, col, 'checks.c04', list(fixed_specs())[:2] + hyp_collect(rhist.st_ragged_history(max_ops=6), shard_seed(ctx, 79), ctx.pick(25, 400)), 'c-locale')
 
 
 def enum_specs(L):
@@ -80,7 +102,7 @@ def tasks(ctx):
     global EXHAUSTIVE
     L = ctx.pick(3, 4)
     EXHAUSTIVE = f"all op sequences of length <= {L} over the 8-op alphabet from 3 start states"
-    t = []
+    t = [(task_fixed, {})]
     for sh in range(NSHARDS):
         t.append((task_enum, dict(shard=sh, L=L)))
         t.append((task_random, dict(shard=sh, n=ctx.pick(80, 1300), max_ops=ctx.pick(8, 25))))
